@@ -383,6 +383,9 @@ class P:
             if self.eat('if'): guard = self.expr(nostruct=True)
             self.expect('=>')
             body = self.expr()
+            if self.peek()[0] == 'op' and self.peek()[1] in ('=', '+=', '-=', '|=', '&=', '*='):      # `pat => place op= value,`
+                op = self.next()[1]
+                body = ('block', [('assign', body, op, self.expr())])
             arms.append((pat, guard, body))
             if not self.eat(','):
                 if not self.at('}') and body[0] != 'block': raise TranslateError('match arm separator')
@@ -1467,6 +1470,7 @@ class Tr:
                     return r
                 return None
             if pat[0] == 'plit': return ('bin', '==', e[1], ('lit', pat[1], None, str(pat[1])))
+            if pat[0] == 'ppath': return ('bin', '==', e[1], ('path', pat[1]))
             if pat[0] == 'por':
                 cs = [cond_of(p) for p in pat[1]]
                 if any(c is None for c in cs): return None
@@ -1482,6 +1486,8 @@ class Tr:
         if not is_enum and arms[-1][0][0] not in ('pwild', 'pbind'): return None
         def blk(b): return b[1] if b[0] == 'block' else [('expr', b, True)]
         res = blk(arms[-1][2])
+        if arms[-1][0][0] == 'pbind':          # `name => …`: the catch-all binds the scrutinee
+            res = [('let', ('pbind', arms[-1][0][1]), None, e[1])] + list(res)
         for pat, _, body in reversed(arms[:-1]):
             c = cond_of(pat)
             if c is None: return None
